@@ -50,6 +50,8 @@ func (f fault) lit() string {
 		return fmt.Sprintf("(Flip %d)", f.i)
 	case "drop":
 		return fmt.Sprintf("(Drop %d)", f.i)
+	case "replay-handshake":
+		return fmt.Sprintf("(Flip %d)", f.j)
 	case "dup":
 		return fmt.Sprintf("(Dup %d)", f.i)
 	case "swap":
@@ -70,6 +72,7 @@ type relay struct {
 	f      fault
 	held   []byte
 	frames [][]byte
+	hs     [][]byte // sealed frames seen before arming: the handshake (identity proof, peer meta)
 	r      *sim.Rng
 }
 
@@ -97,6 +100,8 @@ func (rl *relay) run(src, dst net.Conn) {
 		if armed {
 			rl.count++
 			rl.frames = append(rl.frames, fr)
+		} else {
+			rl.hs = append(rl.hs, fr)
 		}
 		rl.mu.Unlock()
 		out := [][]byte{fr}
@@ -121,6 +126,9 @@ func (rl *relay) run(src, dst net.Conn) {
 				return
 			case f.kind == "replay" && k == f.j && f.i < len(rl.frames):
 				out = [][]byte{rl.frames[f.i], fr}
+			case f.kind == "replay-handshake" && k == f.j && f.i < len(rl.hs):
+				// a sealed frame recorded during the handshake, injected into the data stream at position j
+				out = [][]byte{rl.hs[f.i], fr}
 			}
 		}
 		for _, o := range out {
@@ -172,10 +180,22 @@ func frameCase(r *sim.Rng, cw *sim.CaseWriter) {
 	}
 	f := fault{kind: "none"}
 	if nFrames > 0 && r.Chance(75) {
-		kinds := []string{"flip", "drop", "dup", "swap", "cut", "replay"}
+		kinds := []string{"flip", "drop", "dup", "swap", "cut", "replay", "replay-handshake", "replay-handshake"}
 		f = fault{kind: kinds[r.Intn(len(kinds))], i: r.Intn(nFrames)}
 		if f.kind == "replay" {
 			f.j = f.i + 1 + r.Intn(2)
+		}
+		if f.kind == "replay-handshake" {
+			// handshake frame i (0: identity proof, 1: signed peer meta) at data position j; mostly j = i: the position at which a
+			// restarted nonce sequence would make it authentic
+			f.i = r.Intn(2)
+			f.j = f.i
+			if r.Chance(25) {
+				f.j = r.Intn(nFrames)
+			}
+			if f.j >= nFrames {
+				f.j = nFrames - 1
+			}
 		}
 		if f.kind == "swap" && f.i+1 >= nFrames {
 			f.kind = "drop"
